@@ -524,3 +524,43 @@ Definition step2_l (lst : list (name * policy)) (pt : ptab) (s : state2) (w : bo
   let '(s', ob) := step_l lst pt (mkState ctd (fst me) (snd me)) o in
   let me' := (s_itd s', s_od s') in
   ((s_ctd s', if w then a else me', if w then me' else b), ob).
+
+(* ---------- add_class_trait: declarations added to a class at run time ----------
+   HasTraits.add_class_trait (has_traits.py l.1091-1122): _add_class_trait on the class itself
+   (is_subclass=False: an existing definition raises TraitError), then on all existing subclasses,
+   transitively (is_subclass=True: an existing definition is kept silently).
+   _add_class_trait (l.1126-1223): a name ending in '_' is a wildcard for name[:-1]: `if name in
+   prefix_traits` -> already defined; else prefix_traits[name] = trait, prefix_list.append(name),
+   prefix_list.sort(key=len, reverse=True) (l.1163-1170); an explicit name: `if
+   class_traits.get(name) is not None` -> already defined (this includes names that are only cached
+   resolutions), else class_traits[name] = trait (l.1223).  Plain traits only (no sub-traits). *)
+Definition add_class1 (is_sub : bool) (t : ctab * ptab) (n : name) (p : policy) : option (ctab * ptab) :=
+  let '(ct, pt) := t in
+  if ends_us n then
+    let q := removelast n in
+    if amem q pt then (if is_sub then Some t else None)
+    else Some (ct, sort_len (pt ++ [(q, p)]))
+  else
+    if amem n ct then (if is_sub then Some t else None)
+    else Some (aset n p ct, pt).
+
+(* class j is a (transitive) subclass of class k *)
+Fixpoint is_desc (h : list classdef) (fuel : nat) (j k : nat) : bool :=
+  match fuel with
+  | O => false
+  | S f => existsb (fun b => Nat.eqb b k || is_desc h f b k) (c_bases (nth j h (mkClass [] [])))
+  end.
+
+Fixpoint map_idx {A B} (f : nat -> A -> B) (i : nat) (l : list A) : list B :=
+  match l with [] => [] | x :: r => f i x :: map_idx f (S i) r end.
+
+Definition add_class (h : list classdef) (T : list (ctab * ptab)) (k : nat) (n : name) (p : policy)
+  : list (ctab * ptab) * outcome :=
+  match add_class1 false (tabs_nth T k) n p with
+  | None => (T, Raise TraitError)
+  | Some tk =>
+      (map_idx (fun j t => if Nat.eqb j k then tk
+                           else if is_desc h (length h) j k
+                                then match add_class1 true t n p with Some x => x | None => t end
+                                else t) 0 T, Done)
+  end.
